@@ -11,8 +11,10 @@
 #include <cstring>
 #include <cstdlib>
 #include <sys/uio.h>
+#include <unistd.h>
 
 #include "array.h"
+#include "message.h"
 #include "convert.h"
 
 #include "vf.h"
@@ -58,6 +60,32 @@ void vf_case(uint64_t, vf_rng *r)
 		size_t np = gen_split(r, msg[i], n, split, cut), pos = 0;
 		vf_fp(msg[i], n); vf_fp_u64(split);
 		if (n && (memchr(msg[i], 0, n) || n >= 222 || np > 1)) nontrivial = true;
+		if (np >= 1 && np <= 9 && vf_chance(r, 1, 3)) {
+			/* hand the pieces over as one fragmented mpt::message */
+			struct iovec frag[20];
+			uint8_t *blk[20];
+			size_t bl[20], nf = 0;
+			for (size_t p = 0; p < np; p++) {
+				size_t l = cut[p] - pos;
+				if (p && nf < 9 && vf_chance(r, 1, 5)) { bl[nf] = 0; blk[nf] = static_cast<uint8_t *>(vf_xalloc(0)); nf++; }
+				bl[nf] = l; blk[nf] = static_cast<uint8_t *>(vf_xalloc(l));
+				memcpy(blk[nf], msg[i] + pos, l);
+				nf++;
+				pos = cut[p];
+			}
+			for (size_t k = 1; k < nf; k++) { frag[k - 1].iov_base = blk[k]; frag[k - 1].iov_len = bl[k]; }
+			mpt::message mm(blk[0], bl[0]);
+			mm.cont = frag; mm.clen = nf - 1;
+			vf_at("encode_array::push(message)");
+			vf_count("encode_array::push(message)", 1);
+			alarm(5);   /* a spinning push() grows the array without bound: stop it early */
+			bool ok = arr.push(mm);
+			alarm(0);
+			vf_log("%s push(message of %zu fragments) = %d", rc_name[fmt], nf, (int) ok);
+			for (size_t k = 0; k < nf; k++) vf_xfree(blk[k], bl[k]);
+			VF_CHECK(ok, key(fmt, "push-message-refused"), "push(message) with %zu fragments failed for message %u (%zu bytes) %s", nf, i, n, vf_hex(hx1, sizeof(hx1), msg[i], n));
+			np = 0;
+		}
 		for (size_t p = 0; p < np; p++) {
 			size_t l = cut[p] - pos;
 			uint8_t *src = static_cast<uint8_t *>(vf_xalloc(l));
